@@ -18,8 +18,8 @@ from collections import Counter
 ID = "C20"
 LEVEL = "exploration"
 RULE = ("random histories of {create instances, relate them (every write form), query with an explicit domain, query "
-        "domain-less, rule query, match pattern, partially consumed iterator} followed by dropping all user references; "
-        "histories without any query are checked strictly (everything must die); a domain-less query that the program keeps "
+        "domain-less (evaluated to the end, abandoned after the first result, closed, ended by the() finding a second solution), rule query, match pattern, partially consumed iterator} followed by dropping all user references; "
+        "histories without any query, and histories whose queries are all domain-less, are checked strictly (everything must die); a domain-less query that the program keeps "
         "is evaluated, part of the instances is dropped, and it is evaluated again (the dropped ones are gone and reclaimed).  Each case also runs its history body "
         "k, 2k, 4k times and compares the sizes of every krrood-held container.  Non-trivial = the history creates and "
         "relates instances and (for the attribution path) evaluates at least one query; distinct = operation-kind "
@@ -31,7 +31,11 @@ ASSUMPTIONS = ["dropping references = deleting every harness-held name and calli
 ANCHORS = ["WrappedInstance.__post_init__", "SymbolGraph.remove_node", "SymbolGraph.remove_dead_instances",
            "MonitoredContainer._bind_owner", "SymbolicExpression.__post_init__", "HashedIterable.__iter__"]
 
-OPS = ["create", "create", "relate", "relate", "q_domain", "q_domainless", "q_rule", "q_match", "q_partial"]
+OPS = ["create", "create", "relate", "relate", "q_domain", "q_domainless", "q_rule", "q_match", "q_partial",
+       "q_domainless_first", "q_domainless_closed", "q_domainless_the"]
+# queries without a given domain look their values up when they are evaluated and let go of them afterwards: a history
+# whose queries are all of these kinds leaves nothing alive, however its evaluations ended
+DOMAINLESS_QUERY_OPS = ("q_domainless", "q_domainless_first", "q_domainless_closed", "q_domainless_the")
 KNOWN_GROWING = ("_id_expression_map_", "RWXNode._graph", "lru:", "_symbolic_expression_stack_")
 
 
@@ -40,7 +44,8 @@ def plan(tier):
             "min_nontrivial": 60,
             "min_counters": {"instances_tracked": 3000, "strict_histories": 100, "query_histories": 200,
                              "size_series_compared": 400, "containers_watched": 2000, "bookkeeping_audits": 400,
-                             "long_lived_queries": 300, "explicit_domain_loops": 100}}
+                             "long_lived_queries": 300, "explicit_domain_loops": 100,
+                             "domainless_only_histories": 40, "abandoned_domainless_evaluations": 400}}
 
 
 def setup(ctx):
@@ -109,6 +114,29 @@ def body(om, ops, census):
             evaluated += 1
         elif op == "q_match":
             res = list(an(entity_matching(om.Person, list(persons))(name="seed_p")).evaluate())
+            evaluated += 1
+        elif op == "q_domainless_first":
+            # an evaluation that is abandoned after its first result
+            x = let(om.Org if i % 2 else om.Person, None, name="x")
+            it = (an(entity(x)) if j % 2 else an(entity(x, x.name != "nobody"))).evaluate()
+            next(iter(it), None)
+            del it
+            evaluated += 1
+        elif op == "q_domainless_closed":
+            x = let(om.Org if i % 2 else om.Person, None, name="x")
+            it = iter(an(entity(x)).evaluate())
+            next(it, None)
+            it.close()
+            evaluated += 1
+        elif op == "q_domainless_the":
+            # 'the' gives up at the second solution (seed_p / seed_o always exist: two or more as soon as one was created)
+            from krrood.entity_query_language.quantify_entity import the
+            x = let(om.Org if i % 2 else om.Person, None, name="x")
+            try:
+                res = the(entity(x)).evaluate()
+            except Exception as e:
+                res = None
+                del e
             evaluated += 1
         elif op == "q_partial":
             x = let(om.Person, iter(list(persons)), name="x")
@@ -310,6 +338,9 @@ def run(spec, ctx):
     gc.collect()
     problems, known = [], None
     has_query = any(op[0].startswith("q_") for op in spec["ops"])
+    only_domainless = has_query and all(op[0] in DOMAINLESS_QUERY_OPS for op in spec["ops"] if op[0].startswith("q_"))
+    C["domainless_only_histories"] += only_domainless
+    C["abandoned_domainless_evaluations"] += sum(op[0] in DOMAINLESS_QUERY_OPS[1:] for op in spec["ops"])
     # ---- 1. census for a single run of the history
     census = []
     evaluated = body(om, spec["ops"], census)
@@ -338,6 +369,10 @@ def run(spec, ctx):
                             f"registries were emptied (e.g. {first}; referrers {referrers[:3]})")
         elif not has_query:
             problems.append(f"{n_surv} instances of a history without any query survive until krrood's registries are emptied: {names}")
+        elif only_domainless:
+            problems.append(f"{n_surv} of {len(census)} instances of a history whose queries all range over the symbol graph "
+                            f"(no domain given) stay alive until krrood's registries are emptied: {names} "
+                            f"(queries {[op[0] for op in spec['ops'] if op[0].startswith('q_')]})")
         else:
             known = "evaluated-queries-retained"
             problems.append(f"[known] {n_surv} of {len(census)} instances stay alive after all references were dropped; they die "
